@@ -547,6 +547,21 @@ retry:
 }
 
 func doBinaryOp(a constant.Value, tok token.Token, b constant.Value, ctx []*internal.Elem) constant.Value {
+	if ka, kb := a.Kind(), b.Kind(); binaryOpKinds[tok] != binaryOpShift && ka != kb &&
+		(ka == constant.Bool || ka == constant.String || kb == constant.Bool || kb == constant.String) {
+		// go/constant fails with a run-time type assertion on such operands (true % "s");
+		// they have no folded value and the type check that follows rejects them
+		return nil
+	}
+	switch tok {
+	case token.QUO, token.QUO_ASSIGN, token.REM:
+		switch b.Kind() {
+		case constant.Int, constant.Float, constant.Complex:
+			if constant.Sign(b) == 0 {
+				panic(errors.New("invalid operation: division by zero"))
+			}
+		}
+	}
 	switch binaryOpKinds[tok] {
 	case binaryOpNormal:
 		return constant.BinaryOp(a, tok, b)
